@@ -42,6 +42,8 @@ struct Shared {
     started: usize,
     logs: Vec<Vec<i32>>,
     path: std::path::PathBuf,
+    /// queries issued before the first iteration started (none in the code under test)
+    pre_queries: usize,
 }
 
 fn scratch() -> String {
@@ -121,9 +123,11 @@ fn clear_mono_script() { vclock::with(|s| s.script[vclock::MONOTONIC as usize].c
 pub fn exec(_toks: &[&str], line: &str) -> Option<String> {
     let parts: Vec<&str> = line.split(';').map(|s| s.trim()).collect();
     let head: Vec<&str> = parts[0].split_whitespace().collect();
+    // `pollr` = the same scenario through the thread's real entry point `chrony_poller::run`
+    let real_entry = head.first() == Some(&"pollr");
     let (t_start, refid): (i64, Option<u32>) = match head[..] {
-        ["poll", ts, "nophc"] => (ts.parse().ok()?, None),
-        ["poll", ts, "phc", r] => (ts.parse().ok()?, Some(r.parse::<i64>().ok()? as u32)),
+        ["poll" | "pollr", ts, "nophc"] => (ts.parse().ok()?, None),
+        ["poll" | "pollr", ts, "phc", r] => (ts.parse().ok()?, Some(r.parse::<i64>().ok()? as u32)),
         _ => return None,
     };
     let mut iters = Vec::new();
@@ -148,7 +152,7 @@ pub fn exec(_toks: &[&str], line: &str) -> Option<String> {
 
     let path = std::path::PathBuf::from(format!("{}/phc_error_bound", scratch()));
     let phc_info = refid.map(|r| PhcInfo { refid: r, sysfs_error_bound_path: path.clone() });
-    let sh = Arc::new(Mutex::new(Shared { iters, started: 0, logs: Vec::new(), path: path.clone() }));
+    let sh = Arc::new(Mutex::new(Shared { iters, started: 0, logs: Vec::new(), path: path.clone(), pre_queries: 0 }));
 
     // program points of the loop
     let shp = sh.clone();
@@ -175,7 +179,7 @@ pub fn exec(_toks: &[&str], line: &str) -> Option<String> {
     let shq = sh.clone();
     *verif_hooks::QUERY.lock().unwrap_or_else(|e| e.into_inner()) = Some(Box::new(move |_req, _opts| {
         vclock::log_event(-1);
-        let it = { let s = shq.lock().unwrap(); s.iters[s.started - 1].clone() };
+        let it = { let mut s = shq.lock().unwrap(); if s.started == 0 { s.pre_queries += 1; } s.iters[s.started.max(1) - 1].clone() };
         // from now on CLOCK_MONOTONIC_COARSE shows another value: an as-of read taken late is visible
         vclock::set(vclock::MONOTONIC_COARSE, it.as_sec.wrapping_add(1), it.as_ns);
         clear_mono_script();
@@ -192,7 +196,7 @@ pub fn exec(_toks: &[&str], line: &str) -> Option<String> {
     vclock::set(vclock::MONOTONIC_COARSE, 0, 0);
     vclock::clear_log();
     vclock::enable();
-    let r = util::guarded(AssertUnwindSafe(|| verif_chrony_poller::run_poller(ctx, phc_info, Duration::from_millis(1))));
+    let r = util::guarded(AssertUnwindSafe(|| if real_entry { verif_chrony_poller::run_entry(ctx, phc_info) } else { verif_chrony_poller::run_poller(ctx, phc_info, Duration::from_millis(1)) }));
     vclock::disable();
     let last_log = vclock::take_log();
     clear_mono_script();
@@ -205,6 +209,9 @@ pub fn exec(_toks: &[&str], line: &str) -> Option<String> {
     if logs.len() < started { logs.push(last_log); }
     let msgs: Vec<Message> = shm_mailbox.try_iter().collect();
     let mut out = Vec::new();
+    // a query issued before the first iteration belongs to the first report's history
+    let pre = sh.lock().unwrap().pre_queries;
+    if let Some(l0) = logs.first_mut() { for _ in 0..pre { l0.insert(0, -1); } }
     for (i, log) in logs.iter().enumerate() {
         let m = match msgs.get(i) {
             Some(m) => msg_text(m.clone()),
